@@ -43,7 +43,9 @@ func oracle(c *rig.StepCtx) (string, map[string]string) {
 
 func oracleRep(c *rig.StepCtx, i int) (string, map[string]string) {
 	x := c.X.Rep[i]
-	before, after := c.Before.ReplicaUp[i], c.After.ReplicaUp[i]
+	// status / fused-down flag at the moment of the decision (after a fuse that landed inside the round)
+	before, after := x.WasUp, c.After.ReplicaUp[i]
+	fusedDown := x.WasFusedDown
 	cameUp := !before && after
 	gate := "open"
 	if !x.GateOpen {
@@ -59,7 +61,7 @@ func oracleRep(c *rig.StepCtx, i int) (string, map[string]string) {
 	feat := func(kind string) map[string]string {
 		return map[string]string{"kind": kind, "gate": gate, "probe": probe}
 	}
-	if c.FusedDownBefore[i] && cameUp {
+	if fusedDown && cameUp {
 		switch {
 		case c.X.Round != "R":
 			return "fused replica marked up by an event that is not a replica probe round", feat("up_without_probe_round")
@@ -71,7 +73,7 @@ func oracleRep(c *rig.StepCtx, i int) (string, map[string]string) {
 			return "fused replica marked up in a round whose probe failed", feat("up_without_passed_probe")
 		}
 	}
-	if c.FusedDownBefore[i] && !before && c.X.Round == "R" && x.Pass && !x.SyncBad && c.Before.MasterUp && !x.ElapsedOver && x.GateOpen && !after {
+	if fusedDown && !before && c.X.Round == "R" && x.Pass && !x.SyncBad && c.Before.MasterUp && !x.ElapsedOver && x.GateOpen && !after {
 		return "fused replica still down although its recovery condition holds and the probe passed", feat("not_up_although_condition_holds")
 	}
 	if c.Cfg.Policy == "gradual" && (c.ImplN[i] != x.N || c.ImplNeed[i] != x.Need) {
